@@ -64,7 +64,7 @@ fn check<const N: usize, const M: usize>(g: &AL<M, isize>, s: usize, got: Option
     kani::cover!(got.is_some() && g.m == M && want[N - 1] < 0, "all arcs live and a negative distance");
 }
 
-fn sparse<const N: usize, const M: usize>(lo: isize, hi: isize) {
+pub fn sparse<const N: usize, const M: usize>(lo: isize, hi: isize) {
     cx::set_vcap(M.max(N));
 
     let g = any_arcs::<N, M>(lo, hi);
